@@ -41,7 +41,9 @@ pub(crate) struct InternalObserver<T> {
     pub(crate) state: Cell<ObserverState>,
     observing: Incr<T>,
     weak_self: Weak<Self>,
-    on_update_handlers: RefCell<HashMap<SubscriptionToken, OnUpdateHandler<T>>>,
+    // Each handler sits behind its own Rc<RefCell<..>> so that run_all can call it without
+    // holding a borrow of the map: handlers may (un)subscribe on this very observer.
+    on_update_handlers: RefCell<HashMap<SubscriptionToken, Rc<RefCell<OnUpdateHandler<T>>>>>,
     next_subscriber: Cell<SubscriptionToken>,
 }
 
@@ -151,8 +153,13 @@ impl<T: Value> ErasedObserver for InternalObserver<T> {
         }
     }
     fn run_all(&self, input: &Node, node_update: NodeUpdateDelayed, now: StabilisationNum) {
-        let mut handlers = self.on_update_handlers.borrow_mut();
-        for (id, handler) in handlers.iter_mut() {
+        let snapshot: Vec<_> = self
+            .on_update_handlers
+            .borrow()
+            .iter()
+            .map(|(id, handler)| (*id, handler.clone()))
+            .collect();
+        for (id, handler) in snapshot {
             tracing::trace!("running update handler with id {id:?}");
             /* We have to test [state] before each on-update handler, because an on-update
             handler might disable its own observer, which should prevent other on-update
@@ -164,7 +171,13 @@ impl<T: Value> ErasedObserver for InternalObserver<T> {
             match self.state.get() {
                 Created | Unlinked => panic!(),
                 Disallowed => (),
-                InUse => handler.run(input, node_update, now),
+                InUse => {
+                    // an earlier handler in this loop may have unsubscribed this one
+                    let still_subscribed = self.on_update_handlers.borrow().contains_key(&id);
+                    if still_subscribed {
+                        handler.borrow_mut().run(input, node_update, now)
+                    }
+                }
             }
         }
     }
@@ -227,7 +240,9 @@ impl<T: Value> InternalObserver<T> {
             Created | InUse => {
                 let token = self.next_subscriber.get();
                 self.next_subscriber.set(token.succ());
-                self.on_update_handlers.borrow_mut().insert(token, handler);
+                self.on_update_handlers
+                    .borrow_mut()
+                    .insert(token, Rc::new(RefCell::new(handler)));
                 match self.state.get() {
                     Created => {
                         /* We'll bump [observing.num_on_update_handlers] when [t] is actually added to
